@@ -462,14 +462,20 @@ class _MExpr:
             lhs = scope[glom](target, lhs.spec, scope)
         if type(rhs) is _MSubspec:
             rhs = scope[glom](target, rhs.spec, scope)
-        matched = (
-            (op == '=' and lhs == rhs) or
-            (op == '!' and lhs != rhs) or
-            (op == '>' and lhs > rhs) or
-            (op == '<' and lhs < rhs) or
-            (op == 'g' and lhs >= rhs) or
-            (op == 'l' and lhs <= rhs)
-        )
+        try:
+            matched = (
+                (op == '=' and lhs == rhs) or
+                (op == '!' and lhs != rhs) or
+                (op == '>' and lhs > rhs) or
+                (op == '<' and lhs < rhs) or
+                (op == 'g' and lhs >= rhs) or
+                (op == 'l' and lhs <= rhs)
+            )
+        except Exception as e:
+            # (e.g. 'a' > 0: not a match, like a raising predicate, so that
+            # Or / Not / defaults / other alternatives get their turn)
+            raise MatchError("{0!r} {1} {2!r} raised {3!r}",
+                             lhs, _M_OP_MAP.get(op, op), rhs, e)
         if matched:
             return target
         raise MatchError("{0!r} {1} {2!r}", lhs, _M_OP_MAP.get(op, op), rhs)
